@@ -47,6 +47,11 @@ the reader / writer drivers).
                            (parse_timestamp's 14 positions, the coordinate parser, opl_parse_int, opl_parse_escaped).
  T1-array-index-in-range   std::array subscripts in the scope (parse_timestamp's month-length table) are inside 0..N-1.
 
+Instance keys are spelling-independent (function + role, no local names, statement classes or condition text): A1/A2
+`#acc<i>.loop<j>:<shape>` (i-th scaled accumulator by declaration, j-th loop updating it by source order, shape such as x*10+d,
+x*10, x<<4, x-d, x/10), N1 `#neg<n>`, C1 `#<from>-><to>:parsed-local | <callee>()`, D1 `#digit-<0|a|A>@<offset>`, T1 `#<array type>[]`,
+S*/L1 `#<callee>:<mode>` -- a for/while/break rewrite or a rename keeps every key (and the known-finding entries) intact.
+
 NOT decided (DESIGN "not decided" + dropped): parse(format(x)) == x for all x, correctness of rounding (`(result + 5) / 10`),
 digit-count / trailing-zero logic of the formatters and the sizes of their temp buffers, timestamp calendar arithmetic
 (timegm/gmtime_r), the strtol site of PBFOutputFormat's `pbf_compression_level` option (not an OSM attribute, file not anchored in
